@@ -430,6 +430,7 @@ impl Driver {
         sim.net.echo_snapshots = if profile == Profile::Snapshot { 3 } else { 10 };
         sim.net.echo_state = seed ^ 0x9e37_79b9_7f4a_7c15;
         sim.late_snapshot_report = std::env::var("RVMON_LATE_SNAP").is_ok();
+        sim.app_state_always_durable = std::env::var("RVMON_APP_AHEAD").is_ok();
 
         let members: Vec<u64> = init_conf.members().into_iter().collect();
         let mut universe = members.clone();
@@ -902,7 +903,9 @@ impl Driver {
             }
             K_KNOB => {
                 let v = self.pick_up_idle()?;
-                Action::Knob(v, self.rng.below(7) as u32, self.rng.below(1000))
+                // (the lock-step windows run with a fixed feature set)
+                let kinds = if self.profile == Profile::Lockstep { 7 } else { 8 };
+                Action::Knob(v, self.rng.below(kinds) as u32, self.rng.below(1000))
             }
             K_LOCAL => {
                 let v = self.pick_up_idle()?;
